@@ -8,17 +8,19 @@ Require Import Wbxml.Model.EncXml.
 Require Import Wbxml.Model.XmlRead.
 Require Import Wbxml.Proofs.EncXmlProofs.
 Require Import Wbxml.Proofs.EncXmlIndent.
+Require Import Wbxml.Proofs.EncXmlEol.
 Require Import List NArith.
 Require Extraction.
 Require Import ExtrOcamlBasic.
 Definition xmain_table : list xlang := Eval vm_compute in map xlang_of main_table.
-(* specification side of the theorems (info_g: every generation mode, exact infoset including the white space of
-   indented generation), run by the check against pyexpat: hypotheses and root element *)
+(* specification side of the main theorem C05_read_enc (info_e: every generation mode, exact infoset including the
+   white space of indented generation, XML's line-end / attribute-value normalisation on the reader side), run by
+   the check against pyexpat: hypotheses and root element *)
 Definition spec_doc (l : xlang) (g : gen_type) (indent : N) (keep_ws : bool) (root : node) : bool * bool * option (list xitem) :=
   let o := opts_of_params g indent keep_ws in
-  (lang_ok l, node_ok_g l o proot None root,
-   match info_g l o proot (est0 0) root with
-   | Some (_ :: XE n a c :: _, _) => Some (XE n a c :: nil)
+  (lang_ok l, node_ok_e l o proot None root,
+   match info_e l o proot (est0 0) root with
+   | Some (_ :: SE n a c :: _, _) => Some (XE n a c :: nil)
    | _ => None
    end).
 Extraction "model.ml" xmain_table enc_xml read_xml_auto unescape escape spec_doc.
